@@ -13,3 +13,4 @@ import Dnp3.Driver.Master
 import Dnp3.Model.MasterTrace
 import Dnp3.Model.Pair
 import Dnp3.Driver.Pair
+import Dnp3.Driver.Attr
